@@ -42,6 +42,7 @@ func init() { register("C03", runC03) }
 type c03Cert struct {
 	ID      string
 	Names   []string
+	Due     bool // within its renewal window but still valid (80 of 90 days gone)
 	Ed      bool // Ed25519 key: not supported by the default harness ClientHello
 	RSA     bool // RSA key: supported only by the "rsa" ClientHello / RSA-only real clients
 	Expired bool
@@ -120,7 +121,11 @@ var c03ExtraDef = []c03Cert{
 	{ID: "s3", Names: []string{"*.*.*", "*.*.*.x"}},
 	{ID: "u1", Names: []string{"xn--bcher-kva.x"}},
 	{ID: "u2", Names: []string{"*.r.x", "q.r.x"}, Expired: true},
+	{ID: "uc", Names: []string{"Up.X", "*.UP.x"}}, // upper case in the leaf: certmagic lower-cases its Names
 }
+
+// server names for the random blocks only (the enumerated universe uses c03Queries)
+var c03ExtraQueries = []string{"up.x", "Q.Up.x ", "UP.X", "x.y.z", "q.r", "r", "bücher.x", "BÜCHER.X", "q.r.x", "a.q.r.x", "*", "*.*"}
 
 // certificates that can sit in storage as managed certificates (almost-full branch)
 var c03StoredDef = []c03Cert{
@@ -128,9 +133,11 @@ var c03StoredDef = []c03Cert{
 	{ID: "Lx", Names: []string{"a.x"}, Expired: true},
 	{ID: "Lw", Names: []string{"*.b.x"}},
 	{ID: "Lz", Names: []string{"zz.x"}, Expired: true},
+	{ID: "Ld", Names: []string{"due.y"}, Due: true},
+	{ID: "Le", Names: []string{"*.q.y"}, Due: true},
 }
 var c03Storages = map[string][]string{"empty": nil, "valid-a": {"La"}, "expired-a": {"Lx"}, "wild-b+expired-zz": {"Lw", "Lz"},
-	"broken-qb+wild-b": {"Lw"}, "broken-wild-b+valid-a": {"Lw", "La"}}
+	"broken-qb+wild-b": {"Lw"}, "broken-wild-b+valid-a": {"Lw", "La"}, "due-y": {"Ld", "Le"}}
 
 // names whose resources cannot be read in a storage variant: Load fails with an error that is not fs.ErrNotExist
 var c03Broken = map[string][]string{"broken-qb+wild-b": {"q.b.x"}, "broken-wild-b+valid-a": {"*.b.x"}}
@@ -139,6 +146,9 @@ func c03Make(ca *doubles.CA, c *c03Cert) error {
 	o := doubles.LeafOpts{Names: c.Names}
 	if c.Expired {
 		o.NotBefore, o.NotAfter = time.Now().Add(-72*time.Hour), time.Now().Add(-2*time.Hour)
+	}
+	if c.Due {
+		o.NotBefore, o.NotAfter = time.Now().Add(-80*24*time.Hour), time.Now().Add(10*24*time.Hour)
 	}
 	var keyPEM []byte
 	if c.Ed {
@@ -677,6 +687,32 @@ func (env *c03Env) lookupCase(w *emit.Writer, in c03In, class string) error {
 	if obsErr != nil {
 		return obsErr
 	}
+	// a stored certificate that is due but still valid is served and then removed from the cache by
+	// the background renewal goroutine (renewing is not allowed without on-demand TLS): wait for that
+	// (and for the goroutine to deregister itself) before looking at the cache
+	if err == nil && cert != nil && len(cert.Certificate) > 0 {
+		for _, c := range env.stored {
+			if c.Due && string(c.tls.Certificate[0]) == string(cert.Certificate[0]) {
+				gone := false
+				for i := 0; i < 2000 && !gone; i++ {
+					gone = !keySet(env.snap())[c.ID]
+					if gone {
+						_, obtaining := certmagic.VerifWaitChans()
+						gone = len(obtaining) == 0
+					}
+					if !gone {
+						time.Sleep(5 * time.Millisecond)
+					}
+				}
+				if !gone {
+					w.Hist("skipped_boundary_background_removal_not_seen")
+					env.curKey = ""
+					return nil
+				}
+				w.Hist("due_certificate_served_then_removed")
+			}
+		}
+	}
 	after := env.snap()
 	// the eviction victim: a key cached before and not afterwards
 	victim := ""
@@ -726,7 +762,7 @@ func (env *c03Env) lookupCase(w *emit.Writer, in c03In, class string) error {
 		c := env.stored[id]
 		e.Str(c.Names[0])
 		encCert(e, c12Info{Hash: c.ID, Names: c.Names, Managed: true, IssuerKey: "dbl"})
-		e.Bool(!c.Expired).Bool(len(c.tls.Certificate) > 0 && c.tls.PrivateKey != nil)
+		e.Bool(!c.Expired && !c.Due).Bool(!c.Expired).Bool(len(c.tls.Certificate) > 0 && c.tls.PrivateKey != nil)
 		covered := false
 		for _, san := range c.Names {
 			covered = covered || san == c.Names[0]
@@ -853,7 +889,7 @@ func (env *c03Env) lookupCase(w *emit.Writer, in c03In, class string) error {
 		how = "loaded-from-storage"
 	default:
 		covers := false
-		for _, san := range env.pool[answered].Names {
+		for _, san := range c03LeafNames(env.pool[answered]) {
 			covers = covers || (norm != "" && c03Covers(san, norm)) || (norm == "" && san == ip)
 		}
 		how = "covering"
@@ -1078,6 +1114,8 @@ func runC03(tier string, seed int64, outdir string, replay string) error {
 		{"nil-conn-no-certificate", c03In{Certs: []string{"i1", "fb"}, Cap: 0, Default: "df.y", Fallback: "fb.y", SNI: "", Local: "none", Storage: "empty"}},
 		{"nil-conn-no-certificate", c03In{Certs: []string{"fb"}, Cap: 1, Fallback: "fb.y", SNI: "a!.x", Local: "none", Storage: "valid-a"}},
 		{"corpus", c03In{Certs: []string{"fb"}, Cap: 1, Fallback: "fb.y", SNI: "a.x", Local: "127.0.0.1", Storage: "valid-a"}},
+		{"corpus", c03In{Certs: []string{"fb"}, Cap: 1, Fallback: "fb.y", SNI: "due.y", Local: "127.0.0.1", Storage: "due-y"}},
+		{"corpus", c03In{Certs: []string{"fb", "e1"}, Cap: 2, SNI: "Z.q.y", Local: "127.0.0.1", Storage: "due-y"}},
 		{"corpus", c03In{Certs: []string{"e2", "e3", "e1"}, Cap: 0, SNI: "A.x ", Local: "127.0.0.1", Storage: "empty"}},
 		{"corpus", c03In{Certs: []string{"w1", "ww", "m1"}, Cap: 0, SNI: "q.b.x", Local: "127.0.0.1", Storage: "empty"}},
 		{"corpus", c03In{Certs: []string{"i1", "df", "fb"}, Cap: 0, Default: "df.y", Fallback: "fb.y", SNI: "", Local: "127.0.0.1", Storage: "empty"}},
@@ -1172,7 +1210,7 @@ func runC03(tier string, seed int64, outdir string, replay string) error {
 		}
 		perCap += n * len(c03Configs)
 	}
-	perFullExtra := 7 * 3 * len(c03Configs) // storage-variant queries at full capacity
+	perFullExtra := 10 * 4 * len(c03Configs) // storage-variant queries at full capacity
 	universeSize := 0
 	for _, sub := range subsets {
 		orders := 1
@@ -1191,7 +1229,7 @@ func runC03(tier string, seed int64, outdir string, replay string) error {
 	}
 	take := func() bool { return p >= 1 || r.Float64() < p }
 	locals := []string{"127.0.0.1", "10.0.0.1", "fe80::1"}
-	storageQueries := []string{"a.x", "q.b.x", "zz.x", " A.X", "*.b.x", "b.x", "x.q.b.x"}
+	storageQueries := []string{"a.x", "q.b.x", "zz.x", " A.X", "*.b.x", "b.x", "x.q.b.x", "due.y", " DUE.Y", "z.q.y"}
 	for _, sub := range subsets {
 		ids := make([]string, len(sub))
 		for i, j := range sub {
@@ -1228,7 +1266,7 @@ func runC03(tier string, seed int64, outdir string, replay string) error {
 						}
 					}
 					if capacity > 0 {
-						for _, stv := range []string{"valid-a", "expired-a", "wild-b+expired-zz"} {
+						for _, stv := range []string{"valid-a", "expired-a", "wild-b+expired-zz", "due-y"} {
 							for _, q := range storageQueries {
 								if !take() {
 									continue
@@ -1292,13 +1330,14 @@ func runC03(tier string, seed int64, outdir string, replay string) error {
 			ids[k] = fullPool[perm[k]].ID
 		}
 		cf := c03Configs[r.Intn(len(c03Configs))]
-		in := c03In{Certs: ids, Cap: []int{0, 0, n, n + 1}[r.Intn(4)], Default: cf[0], Fallback: cf[1], SNI: c03Queries[r.Intn(len(c03Queries))],
+		allQueries := append(append([]string{}, c03Queries...), c03ExtraQueries...)
+		in := c03In{Certs: ids, Cap: []int{0, 0, n, n + 1}[r.Intn(4)], Default: cf[0], Fallback: cf[1], SNI: allQueries[r.Intn(len(allQueries))],
 			Local: allLocals[r.Intn(len(allLocals))], Storage: "empty",
 			Policy: []string{"", "min", "max", "good-min", "good-min", "refuse"}[r.Intn(6)],
 			Hello:  []string{"", "", "ed25519", "rsa", "tls12"}[r.Intn(5)],
 			Protos: c03ProtoSets[r.Intn(len(c03ProtoSets))], Abort: r.Intn(12) == 0}
 		if in.Cap > 0 && r.Intn(2) == 0 {
-			in.Storage = []string{"valid-a", "expired-a", "wild-b+expired-zz", "broken-qb+wild-b", "broken-wild-b+valid-a"}[r.Intn(5)]
+			in.Storage = []string{"valid-a", "expired-a", "wild-b+expired-zz", "broken-qb+wild-b", "broken-wild-b+valid-a", "due-y"}[r.Intn(6)]
 			if r.Intn(2) == 0 {
 				in.SNI = storageQueries[r.Intn(len(storageQueries))]
 			}
@@ -1321,9 +1360,12 @@ func runC03(tier string, seed int64, outdir string, replay string) error {
 		}
 		capacity := []int{0, n, n + 1, n + 2, n + 5}[r.Intn(5)]
 		cf := c03Configs[r.Intn(len(c03Configs))]
-		stv := []string{"empty", "empty", "valid-a", "expired-a", "wild-b+expired-zz", "broken-qb+wild-b", "broken-wild-b+valid-a"}[r.Intn(7)]
+		stv := []string{"empty", "empty", "valid-a", "expired-a", "wild-b+expired-zz", "broken-qb+wild-b", "broken-wild-b+valid-a", "due-y"}[r.Intn(8)]
 		for k := 0; k < 6; k++ {
 			q := c03Queries[r.Intn(len(c03Queries))]
+			if k == 3 {
+				q = c03ExtraQueries[r.Intn(len(c03ExtraQueries))]
+			}
 			if k >= 4 {
 				q = storageQueries[r.Intn(len(storageQueries))]
 			}
